@@ -21,6 +21,12 @@ def gen(r, n):
     scs.append(dict(u=150, period=1, ta=2, grace=1, leak=0.7, dur=6, on_term="ignore", sigs=[], as_script=True))
     scs.append(dict(u=150, period=1, ta=None, grace=1, leak=0.7, dur=2.5, on_term="exit", sigs=[], as_script=True))
     scs.append(dict(u=150, period=2, ta=1, grace=0, leak=0.7, dur=4.5, on_term="ignore", sigs=[], as_script=True))
+    # stop / continue in the middle of a period: the deadline is in running time, so termination comes
+    # no earlier than terminate-after full periods of it (and the remembered period survives the resume)
+    scs.append(dict(u=150, period=2, ta=2, grace=1, leak=0.7, dur=7.5, on_term="exit",
+                    sigs=[(1, "TSTP"), (3, "CONT")]))
+    scs.append(dict(u=150, period=1, ta=3, grace=0, leak=0.7, dur=6.5, on_term="ignore",
+                    sigs=[(0.5, "TSTP"), (1.5, "CONT"), (2, "TSTP"), (3, "CONT")]))
     while len(scs) < n:
         period = r.choice([1, 2])
         ta = r.choice([None, 1, 2, 3])
@@ -35,6 +41,10 @@ def gen(r, n):
         sc = dict(u=150, period=period, ta=ta, grace=grace, leak=0.7, dur=dur, on_term=on_term, sigs=[])
         if r.random() < 0.3:
             sc["child"] = True
+        elif ta and r.random() < 0.35:
+            t0 = r.choice([0, 1, 2]) + 0.5
+            if t0 + 0.45 < min(dur, ta * period):
+                sc["sigs"] = [(t0, "TSTP"), (t0 + r.choice([1, 2]), "CONT")]
         scs.append(sc)
     return scs
 
